@@ -673,6 +673,16 @@ func init() {
 		c.panicUnless(fits256(r), "NewIntWithDecimal overflow")
 		return intv(r), true
 	}
+	libModels["bytes.Compare"] = func(c *libCall) (Val, bool) {
+		a, b := c.arg(0), c.arg(1)
+		lt := App(SBool, "bytes_lt", a, b)
+		return WithGo(Ite(Eq(a, b), IntLit(0), Ite(lt, IntLit(-1), IntLit(1))), types.Typ[types.Int]), true
+	}
+	libModels["bytes.Equal"] = func(c *libCall) (Val, bool) {
+		a, b := c.arg(0), c.arg(1)
+		// nil and empty slices are equal for bytes.Equal
+		return Or(Eq(a, b), And(Eq(App(SInt, "blen", a), IntLit(0)), Eq(App(SInt, "blen", b), IntLit(0)))), true
+	}
 	libModels["strings.Compare"] = func(c *libCall) (Val, bool) {
 		a, b := c.arg(0), c.arg(1)
 		lt := App(SBool, "bytes_lt", a, b)
